@@ -762,9 +762,9 @@ class ResNetwork(GeoNetwork):
             raise IndexError(f"node index {i} out of range 0..{self.N - 1}")
         # set params
         Is = It = FIELD(1.0)
+        admittance, R = self._admittance_and_R()
         return _vertex_current_flow_betweenness(
-            self.N, Is, It,
-            to_cy(self.get_admittance(), FIELD), to_cy(self.get_R(), FIELD), i)
+            self.N, Is, It, to_cy(admittance, FIELD), to_cy(R, FIELD), i)
 
     def edge_current_flow_betweenness(self):
         """The electrial version of Newmann's edge betweeness
@@ -792,9 +792,23 @@ class ResNetwork(GeoNetwork):
         # set currents
         Is = It = FIELD(1)
 
+        admittance, R = self._admittance_and_R()
         return _edge_current_flow_betweenness(
-            self.N, Is, It,
-            to_cy(self.get_admittance(), FIELD), to_cy(self.get_R(), FIELD))
+            self.N, Is, It, to_cy(admittance, FIELD), to_cy(R, FIELD))
+
+    def _admittance_and_R(self):
+        """
+        Return the admittance matrix and R for the compiled kernels, which
+        index them with the number of nodes: refuse matrices of another size
+        (the adjacency was replaced without updating the resistances).
+        """
+        admittance, R = self.get_admittance(), self.get_R()
+        if admittance.shape != (self.N, self.N) or R.shape != (self.N, self.N):
+            raise ValueError(
+                f"admittance {admittance.shape} and R {R.shape} do not match "
+                f"the {self.N} nodes of the network: call "
+                "update_resistances() after changing the adjacency")
+        return admittance, R
 
 
 ###############################################################################
